@@ -100,7 +100,14 @@ static void format_operand(FILE *out, const DecodedInstruction *instr, int idx,
                 const char *str = nvm_get_string(mod, instr->operands[idx].u32);
                 if (str) {
                     fprintf(out, " %u", instr->operands[idx].u32);
-                    fprintf(out, "  ; \"%s\"", str);
+                    /* The comment must stay on this line: show line breaks escaped */
+                    fprintf(out, "  ; \"");
+                    for (const char *c = str; *c; c++) {
+                        if (*c == '\n') fprintf(out, "\\n");
+                        else if (*c == '\r') fprintf(out, "\\r");
+                        else fputc(*c, out);
+                    }
+                    fprintf(out, "\"");
                     return;
                 }
             }
